@@ -12,6 +12,8 @@ SPEC = Spec(
                 test="TestVerifC02Queue", driver="drv_c02", go="go1.26", n={"quick": 12000, "thorough": 200000}, timeout_s=1500),
         Harness(name="persistent", module="exporter", pkg=_PKG, files={"zz_verif_c02_persistent_test.go": "c02/persistent_test.go", "zz_verif_c02_queue_test.go": "c02/queue_test.go"},
                 test="TestVerifC02Persistent", driver="drv_c02", go="go1.26", n={"quick": 4000, "thorough": 60000}, timeout_s=1500),
+        Harness(name="soak", module="exporter", pkg=_PKG, files={"zz_verif_c02_soak_test.go": "c02/soak_test.go", "zz_verif_c02_queue_test.go": "c02/queue_test.go"},
+                test="TestVerifC02Soak", driver="drv_c02", go="go1.26", n={"quick": 300, "thorough": 30000}, timeout_s=1500),
     ],
     rule="cond: the real cond with a scheduler-controlled sync.Locker in a synctest bubble; random schedules of start/grant/cancel over "
          "1-4 waiters and 1-4 signallers/broadcasters (4-32 labels + a finishing phase; corpus cases 0-1 = the design-phase deadlock "
@@ -19,8 +21,11 @@ SPEC = Spec(
          "cancelled and a Signal/Broadcast ran while a waiter was inside Wait. queue: the real memoryQueue in a synctest bubble, random "
          "labels offer/cancel/read/done/shutdown (capacity 1-10, all four block_on_overflow x wait_for_result settings, sizes incl. 0, "
          "negative, > capacity, contexts ended before Offer), then drained; Size(), the linked list and every Offer/Read result diffed "
-         "after every label; non-trivial = some producer was blocked for space at a quiescent point. persistent: same for the real "
-         "persistentQueue over the mock storage extension (monitor only). distinct = distinct op sequences (sha1 of the op lines).",
+         "after every label; non-trivial = some producer was blocked for space at a quiescent point. persistent: the same script runner on the "
+         "real persistentQueue over the mock storage extension (items or requests sizer, sizes incl. 0 and > capacity, queued ids read back "
+         "from storage), diffed against the Lean LTS pfire. soak: real memory/persistent queue behind the real asyncQueue under the native "
+         "scheduler (2-6 producers x 5-30 offers, contexts ending after 0-300us, 1-3 consumers completing inline or from other goroutines), "
+         "event log judged by the Lean monitor soakAll. distinct = distinct op sequences (sha1 of the op lines).",
     trusted_base=[
         "Lean 4.33.0 kernel; axioms per theorem listed under axioms_per_theorem (subset of propext, Classical.choice, Quot.sound)",
         "hand-written LTS of memory_queue.go (Offer/add/Read/onDone/Shutdown) and of the repaired cond.go, tied by exact differential at "
@@ -33,7 +38,8 @@ SPEC = Spec(
         "sync.Pool reuse of blockingDone is modelled as fresh objects (results keyed by request id); cross-talk is searched by the "
         "oracle C02/queue/result-crosstalk on the real pool",
         "Go runtime: scheduler, sync.Mutex, channels, select, context; testing/synctest (go1.26) quiescence detection",
-        "persistent queue: no Lean model in C02 (C01 models it); its clauses are checked by the Go monitor only",
+        "persistent queue: LTS pfire of putInternal/Read/onDone/Shutdown over the same state space (Model/C02P.lean), tied by exact differential; "
+        "storage is outside it (client never fails, queue starts empty, sizes >= 0, no Offer after Shutdown) - C01 owns the storage side",
     ],
     assumptions=[
         "0 <= capacity; every handed-over request is completed (OnDone) at most once; each producer goroutine issues one Offer per id",
